@@ -66,6 +66,8 @@ def ann_src(a):
         return f"{a[1]}t"
     if k == "ph":
         return f"PH[{a[1]}]"
+    if k == "w":
+        return "Whatever"
     raise ValueError(a)
 
 
@@ -163,6 +165,7 @@ from ovld import (Dependent, Exactly, Intersection, StrictSubclass, call_next,
                   class_check, dependent_check, parametrized_class_check,
                   recurse, typeorder)
 from ovld.mro import Order
+from ovld.types import Whatever
 
 DEFAULT = None
 FN = None
